@@ -665,8 +665,17 @@ func writeExpression(ctx *exprContext, sb *strings.Builder, x parser.Expr) error
 		default:
 			fmt.Fprintf(sb, "/* unhandled %s unary op */ ", x.Op)
 		}
-		if err := writeExpressionMaybeParen(ctx, sb, x.X); err != nil {
+		operand := new(strings.Builder)
+		if err := writeExpressionMaybeParen(ctx, operand, x.X); err != nil {
 			return err
+		}
+		if s := operand.String(); strings.HasPrefix(s, "-") || strings.HasPrefix(s, "+") {
+			// Keep signs apart: "--" would start a SQL comment.
+			sb.WriteString("(")
+			sb.WriteString(s)
+			sb.WriteString(")")
+		} else {
+			sb.WriteString(s)
 		}
 	case *parser.BinaryExpr:
 		switch x.Op {
